@@ -222,7 +222,7 @@ func init() {
 				"setIndex.OpenValueCursor/fwd", "setIndex.OpenValueCursor/rev", "setIndex.OpenKeyCursor/fwd", "setIndex.OpenKeyCursor/rev",
 				"GetRelatedEntitiesCursor/fwd", "GetRelatedEntitiesCursor/rev", "LinkCollection.IterateLinks", "RefCountedLinkCollection.IterateLinks/fwd", "RefCountedLinkCollection.IterateLinks/rev",
 				"setSymbolRuntime.OpenCursor", "setSymbolRuntime.OpenCursor (reopened on a row without the bucket)", "setSymbolRuntime.OpenCursor (reopened on another row)", "IterateIds", "IterateValidIds", "IterateIds(extended child store)", "IterateValidIds(extended child store)", "IterateIds(plain child store)", "IterateValidIds(plain child store)", "IterateIds(filtered)", "NewFilteredCursor", "TreeSet.ToCursor/fwd", "TreeSet.ToCursor/rev", "TreeSet.ToCursor (grown after an earlier cursor)/fwd", "TreeSet.ToCursor (grown after an earlier cursor)/rev", "NewUnionSetCursor/fwd", "NewUnionSetCursor/rev",
-				"IteratorMatchingAnyOf/1", "IteratorMatchingAnyOf/2/fwd", "IteratorMatchingAnyOf/2/rev", "IteratorMatchingAllOf/1", "IteratorMatchingAllOf/2", "IteratorMatchingAllOf/3 order 0", "IteratorMatchingAllOf/3 order 3", "IteratorMatchingAllOf/3 order 5", "IteratorMatchingAllOf/3 order 7", "IteratorMatchingAnyOf/3", "IteratorMatchingAnyOf/2 provider reused", "TypedBucket.OpenCursor/fwd while a reverse cursor is open", "TypedBucket.IterateStringList while a reverse list cursor is open", "TypedBucket.OpenTypedCursor/rev while a forward cursor is open", "EmptyCursor", "stackedCursor(dotted set)", "stackedCursor(dotted set ending in a scalar)", "sub-query cursor over a self-referencing set", "TypedBucket.OpenTypedCursor/fwd (long elements)", "TypedBucket.OpenTypedCursor/rev (long elements)", "NewTypedBoltCursor/fwd (long elements)", "NewTypedBoltCursor/rev (long elements)"}}
+				"IteratorMatchingAnyOf/1", "IteratorMatchingAnyOf/2/fwd", "IteratorMatchingAnyOf/2/rev", "IteratorMatchingAllOf/1", "IteratorMatchingAllOf/2", "IteratorMatchingAllOf/1/rev", "IteratorMatchingAllOf/2/rev", "IteratorMatchingAllOf/3/rev", "IteratorMatchingAllOf/3 order 0", "IteratorMatchingAllOf/3 order 3", "IteratorMatchingAllOf/3 order 5", "IteratorMatchingAllOf/3 order 7", "IteratorMatchingAnyOf/3", "IteratorMatchingAnyOf/2 provider reused", "TypedBucket.OpenCursor/fwd while a reverse cursor is open", "TypedBucket.IterateStringList while a reverse list cursor is open", "TypedBucket.OpenTypedCursor/rev while a forward cursor is open", "EmptyCursor", "stackedCursor(dotted set)", "stackedCursor(dotted set ending in a scalar)", "sub-query cursor over a self-referencing set", "TypedBucket.OpenTypedCursor/fwd (long elements)", "TypedBucket.OpenTypedCursor/rev (long elements)", "NewTypedBoltCursor/fwd (long elements)", "NewTypedBoltCursor/rev (long elements)"}}
 		},
 	})
 }
@@ -520,6 +520,14 @@ func runC14Main(c *core.Ctx, idx int) {
 		add(c14Kind{name: "IteratorMatchingAnyOf/1", set: ne, open: func() ast.SetCursor { return ist.Store.IteratorMatchingAnyOf(roles, []string{"r"})(tx, true) }})
 		add(c14Kind{name: "IteratorMatchingAllOf/1", set: odd, open: func() ast.SetCursor { return ist.Store.IteratorMatchingAllOf(roles, []string{"odd"})(tx, true) }})
 		add(c14Kind{name: "IteratorMatchingAllOf/2", set: both, open: func() ast.SetCursor { return ist.Store.IteratorMatchingAllOf(roles, []string{"r", "odd"})(tx, true) }})
+		// the same providers asked for the descending direction (what a scan does for `sort by id desc`)
+		add(c14Kind{name: "IteratorMatchingAllOf/1/rev", reverse: true, set: odd, open: func() ast.SetCursor { return ist.Store.IteratorMatchingAllOf(roles, []string{"odd"})(tx, false) }})
+		add(c14Kind{name: "IteratorMatchingAllOf/2/rev", reverse: true, set: both, open: func() ast.SetCursor { return ist.Store.IteratorMatchingAllOf(roles, []string{"r", "odd"})(tx, false) }})
+		add(c14Kind{name: "IteratorMatchingAllOf/2/rev", reverse: true, set: both, open: func() ast.SetCursor { return ist.Store.IteratorMatchingAllOf(roles, []string{"odd", "r"})(tx, false) }})
+		for _, vals := range [][]string{{"r", "odd", "hi"}, {"hi", "odd", "r"}, {"odd", "hi", "r"}} {
+			vals := vals
+			add(c14Kind{name: "IteratorMatchingAllOf/3/rev", reverse: true, set: oddHi, open: func() ast.SetCursor { return ist.Store.IteratorMatchingAllOf(roles, vals)(tx, false) }})
+		}
 		// three and four required values in every order (the first one picks the index bucket, the rest filter), with a repeat
 		for pi, vals := range [][]string{{"r", "odd", "hi"}, {"r", "hi", "odd"}, {"odd", "r", "hi"}, {"odd", "hi", "r"}, {"hi", "r", "odd"}, {"hi", "odd", "r"}, {"hi", "r", "odd", "hi"}, {"r", "r", "odd", "hi"}} {
 			vals := vals
